@@ -21,16 +21,25 @@
     invariants with nothing hidden (fast = exact), and keeps the allocation status of every
     frame as recorded by markers and bits; `recover_then_history`.
 
-  PARTIAL: that every state a crash can leave — at any point of any interleaving — satisfies
-  `CrashInv`, and that at that instant the bits/markers of every completed allocation are set
-  and those of frames untouched by in-flight calls are as before (the concurrent ownership
-  invariant), are not theorems. Explored by the crash oracle of the trace co-simulation: before every atomic
+  * `conc_crash_anywhere_recovers` — **crash at any instant of any interleaving of any number
+    of threads** using the lower allocator (`Lower::get`/`get_at`/`put` at allocation order):
+    the state at that instant satisfies `CrashInv` (`LInv.crashInv`: the counters never
+    over-report, `conc_counters_never_over_report`), recovery from it re-establishes the full
+    lower invariant, and everything any thread held at the crash — completed allocations and
+    the holdings of calls in flight — is still allocated afterwards (bits set / marker kept), so
+    it can be freed at its order; every other frame is free exactly if its bit says so.
+
+  PARTIAL: the same for crashes inside upper-level calls (tree counters and reservations are
+  volatile and rebuilt by `Trees::new`, so only the interleaving of lower-level accesses matters,
+  but the call sequences the upper level issues — including partial frees of huge allocations,
+  K1 — are not covered by the theorem). Explored by the crash oracle of the trace co-simulation: before every atomic
   write to the persistent buffer, of every explored schedule, the buffer is copied and recovered
   with the real code (held blocks allocated and freeable at their order, counts agree, at most
   the in-flight calls' frames missing), and by recover-at-quiescent-points in the sequential
   histories and the NVM wrapper runs.
 -/
 import LLFreeV.Proofs.EndToEnd
+import LLFreeV.Proofs.OwnLowerThreads
 namespace LLFree.C05
 open LLFree
 
@@ -116,5 +125,28 @@ theorem recover_then_history (c : Cfg) (ok : CfgOk c) (calls : List Call) (hvali
 
 /-- a quiescent state is a crash state: recovering it changes no allocation status -/
 theorem quiescent_is_crash_state (c : Cfg) (m : Mem) (inv : LowerInv c m) : CrashInv c m := inv.crashInv
+
+/-- **Crash at any instant of any interleaving, then recovery.** -/
+theorem conc_crash_anywhere_recovers (c : Cfg) (ok : GeomOk16 c.geom) (m : Mem) (inv : LowerInv c m) (ht : m.trees.size = c.ntrees)
+    (n retries : Nat) (cmds : Nat → List LCmd) (sched : List Nat) (hsched : ∀ k ∈ sched, k < n) :
+    ∃ ghs, LowerConcOk c.geom n
+        (concRun sched (m, fun k => Th.at (runL c.geom retries (cmds k) ⟨[], []⟩))).1
+        (concRun sched (m, fun k => Th.at (runL c.geom retries (cmds k) ⟨[], []⟩))).2 ghs ∧
+      Runs (concRun sched (m, fun k => Th.at (runL c.geom retries (cmds k) ⟨[], []⟩))).1
+        (Lower.recover c.geom c.ntrees c.nhuge) (fun _ m'' => LowerInv c m'' ∧
+          (∀ k f, (ghs k).ownS f = true → m''.bit f = true) ∧
+          (∀ k h, (ghs k).ownH h = true → Huge.isHuge (m''.hugeE h) = true)) :=
+  lower_crash_anywhere_recovers ok m inv ht n retries cmds sched hsched
+
+/-- in every state of every interleaving a counter is at most the number of zero bits of its
+    bitfield, and a whole-huge marker sits on an empty bitfield: recovery only ever has to
+    *raise* counters, it never finds an allocation the persistent state does not record -/
+theorem conc_counters_never_over_report (c : Cfg) (ok : GeomOk16 c.geom) (m : Mem) (inv : LowerInv c m)
+    (n retries : Nat) (cmds : Nat → List LCmd) (sched : List Nat) (hsched : ∀ k ∈ sched, k < n) (h : Nat) :
+    let m' := (concRun sched (m, fun k => Th.at (runL c.geom retries (cmds k) ⟨[], []⟩))).1
+    (Huge.isHuge (m'.hugeE h) = false → m'.hugeE h ≤ zerosIn c.geom m' h) ∧
+    (Huge.isHuge (m'.hugeE h) = true → zerosIn c.geom m' h = c.geom.hugeFrames) := by
+  obtain ⟨_, hok⟩ := lower_threads_safe ok m inv n retries cmds sched hsched
+  exact ⟨hok.counter_le h, hok.marker h⟩
 
 end LLFree.C05
